@@ -1,4 +1,6 @@
 import LassoProofs.Lemmas.ConcArenaHist
+import LassoProofs.Lemmas.ConcArenaIds
+import LassoProofs.Lemmas.ConcArenaSolo
 import LassoModel.Extracted
 /-
   C05 — concurrent storage integrity: exclusive regions, no torn strings, no lost block, ordering.
@@ -111,6 +113,16 @@ theorem published_blocks_stay (sched more : List (Nat × Bool)) (b : ABucket) (h
     succOf (run (R cap max programs sched) more).buckets b.id = succOf (R cap max programs sched).buckets b.id :=
   ⟨run_keeps more _ b hb, run_walk more (reach_inv cap max programs sched) b.id ⟨b, hb, rfl⟩⟩
 
+/-- **No storage block is lost, ever**: in every reachable state every block that was ever allocated is
+either in the list or owned by the one thread that is between allocating and publishing it … -/
+theorem every_block_accounted_for (sched : List (Nat × Bool)) : AllIds (R cap max programs sched) :=
+  run_allIds sched (init_inv cap max programs) (init_allIds cap max programs)
+
+/-- … so when all threads are done the list holds every block that was ever allocated. -/
+theorem quiescent_no_block_lost (sched : List (Nat × Bool)) (hq : quiescent (R cap max programs sched) = true) :
+    ∀ i, i < (R cap max programs sched).nextId → ∃ b ∈ (R cap max programs sched).buckets, b.id = i :=
+  quiescent_all_published (every_block_accounted_for cap max programs sched) hq
+
 /-- Block identities are unique and every block respects its capacity, in every reachable state. -/
 theorem blocks_wellformed (sched : List (Nat × Bool)) :
     ((R cap max programs sched).buckets.map (·.id)).Nodup ∧
@@ -119,6 +131,24 @@ theorem blocks_wellformed (sched : List (Nat × Bool)) :
   ⟨hi.ids, fun b hb => ⟨hi.fit b hb, hi.tiled b hb⟩⟩
 
 end
+
+/-! ### The micro-steps are the source's logic
+
+The machine's steps were written by hand.  Run by one thread without interference — from any state with
+distinct block identities, whatever other threads did before — one `store_str` call puts the string
+into the first block of the list that has room and, if none has, does exactly what the decision tree
+regenerated from `LockfreeArena::store_str` on this run says (`Extracted.lockfreeGrow`: which error,
+how much budget is claimed, the size of the new block, the stored capacity, placement at the head). -/
+theorem solo_call_follows_source (s : AS) (x : Bytes) (rest : List Bytes) (hnd : (s.buckets.map (·.id)).Nodup)
+    (ht : s.ts = [{ pc := .idle, todo := x :: rest }]) :
+    ∃ sched : List (Nat × Bool), (∀ e ∈ sched, e = (0, false)) ∧
+      if x.length = 0 then
+        run s sched = { s with ts := [{ pc := .idle, todo := rest }], log := (0, x, .empty) :: s.log }
+      else match s.buckets.find? (fits x.length) with
+        | some b => run s sched = { s with ts := [{ pc := .idle, todo := rest }], log := (0, x, .ok b.id b.len) :: s.log,
+                                           buckets := stored s.buckets b x }
+        | none => Matches s (run s sched) rest x (Grow.eval (envOf s x) Extracted.lockfreeGrow) :=
+  solo_store s x rest hnd ht
 
 /-! ### Ordering by synchronisation
 
